@@ -138,6 +138,16 @@ def check_bfs_dfs(ctx: Ctx):
         cfg = cfg_of(f.node)
         gv = GuardView(cfg)
         cont = "queue" if name == "bfs" else "stack"
+        gd = [n for n in own_nodes(f.node) if isinstance(n, ast.Assign) and ast.unparse(n.targets[0]) == "is_goal"]
+        okg = len(gd) == 1 and isinstance(gd[0].value, ast.IfExp)
+        if okg:
+            e = gd[0].value
+            pos, neg = (e.body, e.orelse)
+            tat = _atoms(e.test, True)
+            if isinstance(e.orelse, ast.Lambda):  # written the other way round
+                pos, neg, tat = e.orelse, e.body, _atoms(e.test, False)
+            okg = isinstance(pos, ast.Lambda) and ast.unparse(pos.body) in ("s == goal", "goal == s") and ast.unparse(neg) == "goal" and tat == {"F:callable(goal)", "goal is not None"}
+        ctx.ob("C11-O3", "R1 STATUS-GUARD", f, f"{name}: a goal given as a value becomes an equality test exactly when it is neither callable nor None", bool(okg), f"`{ast.unparse(gd[0])[:100] if gd else '?'}`: any other reading (truthiness, a type test) takes a legal goal state such as 0, () or '' for 'no goal', and the search returns the visited set instead of a path", node=gd[0] if gd else f.node)
         pops = [n for n in own_nodes(f.node) if isinstance(n, ast.Assign) and isinstance(n.value, ast.Call) and isinstance(n.value.func, ast.Attribute) and ast.unparse(n.value.func.value) == cont]
         ctx.require(len(pops) == 1, f"frontier pop not found in {name}")
         ctx.ob("C11-O3", "R21 search discipline", f, f"{name} pops the frontier with {popper}()", pops[0].value.func.attr == popper and not pops[0].value.args, ast.unparse(pops[0]), node=pops[0])
@@ -573,6 +583,11 @@ def _v_fw_diag_after_edges(tree):
     g.body.insert(ed[0], d)
 
 
+def _v_bfs_goal_truthiness(tree):
+    g = M.find_func(tree, "bfs")
+    M.replace_stmt(g, lambda s: isinstance(s, ast.Assign) and M.src_is(s.targets[0], "is_goal"), M.stmts("is_goal = goal if callable(goal) else (lambda s: s == goal) if goal else None"))
+
+
 def _v_bfs_partial_set_optimal(tree):
     g = M.find_func(tree, "bfs")
     M.replace_expr(g, lambda e: isinstance(e, ast.IfExp) and M.src_has(e, "Status.MAX_ITER") and M.src_has(e.test, "queue"), M.expr("Status.OPTIMAL"))
@@ -632,5 +647,6 @@ VARIANTS = [
     M.Variant("bellman_ford answers target == start before the detection pass (seed C11-H)", BF, _v_bf_trivial_query_shortcut, "C11-O4"),
     M.Variant("floyd_warshall zeroes the diagonal after reading the edges (seed C11-I)", FW, _v_fw_diag_after_edges, "C11-O5"),
     M.Variant("bfs without a goal labels the partial visited set OPTIMAL after a budget exit (original defect)", BS, _v_bfs_partial_set_optimal, "C11-O2"),
+    M.Variant("bfs reads a falsy goal state (node 0) as 'no goal' (seed C12-L)", BS, _v_bfs_goal_truthiness, "C11-"),
     M.Variant("twin: floyd_warshall i/j loops swapped", FW, _t_fw_swap_ij, None),
 ]
